@@ -143,6 +143,13 @@ pub fn gen_pcm(kind: &str, rng: &mut Rng, channels: usize, bps: u32, frames: usi
                     let r = -0.8 + 0.03 * c as f64;
                     ((a * r.powi((i % g) as i32)) as i64 + (i / g) as i64 % 3).clamp(lo, hi)
                 }
+                // "periodic:<p>": a random pattern of p samples repeated exactly (a tone at Nyquist for p = 2): the autocorrelation is
+                // ill-conditioned, so the last bits of its floating-point sums decide the LPC parameters
+                k if k.starts_with("periodic:") => {
+                    let p: usize = k[9..].parse().unwrap_or(2).max(1);
+                    let mut r2 = Rng::new(0x9E37 + (i % p) as u64 * 7919 + c as u64 * 104729 + p as u64);
+                    r2.range(lo / 3, hi / 3)
+                }
                 "noise" => rng.range(lo, hi),
                 // a quiet high-pitched tone with a little noise: linear prediction does far better than the fixed predictors
                 "hitone" => {
